@@ -217,6 +217,17 @@ def analyze(ctx, want):
         ob("C02.d", "%s:one-state-per-closure" % tag, asm_ok["states"], "states are pushed in a loop over 0..state_map.len()", fn.loc())
         ob("C02.d", "%s:each-recorded-transition-installed-at-its-source" % tag, asm_ok["trans"], "states[from].transitions.push((cc, to)) for (from, cc, to) in transitions", fn.loc())
         ob("C02.d", "%s:accepting-flags-installed-at-their-state" % tag, asm_ok["ends"], "end_states[state] = (true, terminal) for (state, terminal) in accepting_states", fn.loc())
+        # ... and only there: the table of accepting flags starts out all-false (a state nobody labelled accepts nothing)
+        fills = []
+        for p in paths:
+            for e in p.events:
+                if e[0] == "call" and re.search(r"vec::from_elem::<\(bool, .*TerminalID\)>$|Vec::<\(bool, .*TerminalID\)>::(resize|push)$|iter::repeat::<\(bool, .*TerminalID\)>$|iter::repeat_n::<\(bool, .*TerminalID\)>$", e[2]):
+                    v_ = argval(e, 0) if re.search(r"from_elem|iter::repeat", e[2]) else argval(e, 2 if "resize" in e[2] else 1)
+                    fills.append(v_)
+            if fills:
+                break
+        ok_fill = bool(fills) and all(v_[0] == "tuple" and len(v_[1]) == 2 and v_[1][0] == ("bool", False) for v_ in fills)
+        ob("C02.d", "%s:states-are-non-accepting-unless-labelled" % tag, ok_fill, "initial accepting flags: %s" % [S.fstr(v_)[:40] for v_ in fills][:3], fn.loc())
         its = [M.call_name(t) for bb, t in fn.calls(ADAPTERS) if not re.search(r"^<std::iter::Repeat(With|N)?<", M.call_name(t))]   # (repeat(..).take(n) builds n fresh values, it filters nothing)
         ob("C02.d", "%s:no-filter-in-the-construction" % tag, not its, "iterator adapters: %s" % its, fn.loc())
         # the result goes through the minimizer
